@@ -83,6 +83,12 @@ func readComcastEbp(data []byte) (ebp *comcastEbp, err error) {
 	ebp.DataFieldLength = data[index]
 	index += uint8(1)
 
+	// every field read below must lie inside the data field and inside data
+	end := int(ebp.DataFieldLength) + 2
+	if ebp.DataFieldLength > 0 && end > len(data) {
+		return nil, gots.ErrInvalidEBPLength
+	}
+
 	// Check if the data is as advertised
 	if ebp.DataFieldLength > 0 {
 		if len(data) >= 3 {
@@ -94,22 +100,34 @@ func readComcastEbp(data []byte) (ebp *comcastEbp, err error) {
 	}
 
 	if ebp.ExtensionFlag() {
+		if int(index) >= end {
+			return nil, gots.ErrInvalidEBPLength
+		}
 		ebp.ExtensionFlags = data[index]
 		index += uint8(1)
 	}
 
 	if ebp.SapFlag() {
+		if int(index) >= end {
+			return nil, gots.ErrInvalidEBPLength
+		}
 		ebp.SapType = data[index]
 		index += uint8(1)
 	}
 
 	if ebp.GroupingFlag() {
+		if int(index) >= end {
+			return nil, gots.ErrInvalidEBPLength
+		}
 		group := data[index]
 		ebp.Grouping = append(ebp.Grouping, group)
 		index += uint8(1)
 	}
 
 	if ebp.TimeFlag() {
+		if int(index)+8 > end {
+			return nil, gots.ErrInvalidEBPLength
+		}
 		ebp.TimeSeconds = binary.BigEndian.Uint32(data[index : index+4])
 		index += uint8(4)
 
@@ -117,10 +135,7 @@ func readComcastEbp(data []byte) (ebp *comcastEbp, err error) {
 		index += uint8(4)
 	}
 
-	if end := int(ebp.DataFieldLength) + 2; int(index) < end {
-		if end > len(data) {
-			return nil, gots.ErrInvalidEBPLength
-		}
+	if int(index) < end {
 		ebp.ReservedBytes = data[index:end]
 	}
 
